@@ -275,16 +275,18 @@ Theorem sql_engine_reads_intended :
 Proof. exact (fun d e p => SqlProofs.sql_engine_reads_intended d e p sql_tables_ok). Qed.
 Print Assumptions sql_engine_reads_intended.
 
-(* the text layer under Theta-1: a prefix `-` template directly followed by an unparenthesised construct
-   whose text starts with `-`.  FULL STATEMENT (false, F3b): adjacency_bad d = [].
-   Since /repo 148aed7 (`-{l:14}`) neg over neg is parenthesised, since 83e82fa a negative number binds like a
-   unary minus; exactly one pair is left: neg over an s-string that starts with `-`. *)
+(* the text layer under Theta-1: a prefix `-` template directly followed by an unparenthesised construct whose text
+   starts with `-` would read `--`, an SQL comment.  148aed7 (`-{l:14}`) parenthesises neg over neg, 83e82fa makes a
+   negative number bind like a unary minus, and since /repo 2f7a440 (F3b) translate_operator itself wraps an operand whose
+   text starts with `-` when the template text in front of it ends with `-` (text tie: GenSqlStrength.minus_guard) --
+   which covers the one pair the strengths leave, neg over an s-string that starts with `-`.  The only construct that puts
+   a `-` directly in front of a hole is the neg template, which translate_operator emits. *)
 Definition k_neg : str := (k_tmpl ++ [110;101;103])%N.
-Theorem adjacency_only_neg_sstring :
-  minus_guard = false /\     (* translate_operator does not (yet) look at the text around a hole: fixes/F3b *)
-  forallb (fun d => match adjacency_bad d with [(p, c)] => leqb p k_neg && leqb c k_sstr_minus | _ => false end) [d_sqlite; d_generic] = true.
+Theorem adjacency_guarded :
+  minus_guard = true /\
+  forallb (fun d => forallb (fun pc => leqb (fst pc) k_neg) (adjacency_bad d)) [d_sqlite; d_generic] = true.
 Proof. vm_compute. split; reflexivity. Qed.
-Print Assumptions adjacency_only_neg_sstring.
+Print Assumptions adjacency_guarded.
 
 (* F3 is repaired for operators and literals: -(-a) renders -(-a), the negation of the literal -5 renders -(-5) *)
 Theorem adjacency_neg_neg_fixed :
